@@ -14,6 +14,7 @@ import (
 	"go/types"
 	"os"
 	"path/filepath"
+	"regexp"
 	"sort"
 	"strings"
 
@@ -41,9 +42,29 @@ var srcTargets = []srcTarget{
 	{Group: "Revocation", Recv: "RevocationList", Name: "allRevoked"},
 	{Group: "Revocation", Recv: "RevocationList", Name: "IsRevoked"},
 	{Group: "Revocation", Recv: "RevocationList", Name: "MaybeCompact", Only: "V2"},
+	{Group: "Revocation", Recv: "AccountClaims", Name: "isRevoked", Only: "V2"},
+	{Group: "Revocation", Recv: "AccountClaims", Name: "IsClaimRevoked", Only: "V2"},
+	{Group: "Revocation", Recv: "Export", Name: "isRevoked", Only: "V2"},
+	{Group: "Revocation", Recv: "Export", Name: "IsClaimRevoked", Only: "V2"},
+	{Group: "Validate", Recv: "ClaimsData", Name: "Validate"},
+	{Group: "Validate", Recv: "Subject", Name: "Validate"},
+	{Group: "Validate", Recv: "Subject", Name: "HasWildCards", Only: "V2"},
+	{Group: "Validate", Recv: "ServiceLatency", Name: "Validate", Only: "V2"},
+	{Group: "Validate", Recv: "Export", Name: "IsService", Only: "V2"},
+	{Group: "Validate", Recv: "Export", Name: "IsStream", Only: "V2"},
+	{Group: "Validate", Recv: "Export", Name: "IsSingleResponse", Only: "V2"},
+	{Group: "Validate", Recv: "Export", Name: "IsChunkedResponse", Only: "V2"},
+	{Group: "Validate", Recv: "Export", Name: "IsStreamResponse", Only: "V2"},
+	{Group: "Validate", Recv: "Export", Name: "Validate", Only: "V2"},
+	{Group: "DidSign", Recv: "StringList", Name: "Contains", Only: "V2"},
+	{Group: "DidSign", Recv: "OperatorClaims", Name: "DidSign", Only: "V2"},
+	{Group: "DidSign", Recv: "AccountClaims", Name: "DidSign", Only: "V2"},
 }
 
 type untr struct{ msg string }
+
+// an observation parameter of a translated function: the path below its receiver and its Coq type
+type absParam struct{ rel, ty string }
 
 type tr struct {
 	info       *types.Info
@@ -52,8 +73,10 @@ type tr struct {
 	used       map[string]bool
 	k          int
 	recv       *types.Var
-	fieldTy    map[string]string // receiver field path (Coq parameter name) -> Coq type
+	fieldTy    map[string]string // observation of an abstract value (Coq parameter name) -> Coq type
 	fieldOrder []string
+	roots      map[types.Object]string     // abstract values (struct receiver, struct-pointer / interface parameters, type-assertion results) -> name prefix
+	absParams  map[types.Object][]absParam // per translated function: its observation parameters, relative to its receiver
 	retTy      string
 	resTy      string                  // the Go result alone (retTy adds the mutated receiver)
 	known      map[types.Object]string // translated functions of this package -> Coq name
@@ -61,6 +84,10 @@ type tr struct {
 	mut        bool                    // this function assigns through its receiver (slice behind a pointer, or map)
 	mapKey     []types.Object          // range key variables of enclosing map ranges
 	wrap       func(string) string     // a Go result -> the complete return value (adds the updated receiver)
+	vr         types.Object            // a *ValidationResults parameter: the list of issues so far, returned extended
+	returnsVr  map[types.Object]bool   // translated functions that take and return the issue list
+	myAbs      []absParam              // this function's observations of its own receiver
+	foreignObs bool                    // it also observes an abstract parameter
 }
 
 func (t *tr) fail(n ast.Node, f string, a ...interface{}) {
@@ -95,6 +122,9 @@ func (t *tr) bind(o types.Object) string {
 func (t *tr) coqType(n ast.Node, ty types.Type) string {
 	if named, ok := ty.(*types.Named); ok && named.Obj().Pkg() == nil && named.Obj().Name() == "error" {
 		return "(option string)"
+	}
+	if isVR(ty) {
+		return "(list go_issue)"
 	}
 	if named, ok := ty.(*types.Named); ok && named.Obj().Pkg() != nil && named.Obj().Pkg().Path() == "time" && named.Obj().Name() == "Time" {
 		return "Z" // a time.Time is used through Unix() only: its seconds
@@ -207,15 +237,8 @@ func (t *tr) expr(e ast.Expr) string {
 		}
 		t.fail(e, "identifier %s is not a local variable, parameter or constant", x.Name)
 	case *ast.SelectorExpr:
-		if path, ok := t.recvPath(x); ok {
-			if f, ok := t.info.Uses[x.Sel].(*types.Var); ok && f.IsField() {
-				name := strings.Join(path, "_")
-				if _, seen := t.fieldTy[name]; !seen {
-					t.fieldOrder = append(t.fieldOrder, name)
-				}
-				t.fieldTy[name] = t.coqType(x, f.Type())
-				return name
-			}
+		if name, ok := t.absPath(x); ok {
+			return t.observe(name, t.coqType(x, t.info.TypeOf(x)))
 		}
 		t.fail(e, "selector %s.%s", exprText(x.X), x.Sel.Name)
 	case *ast.StarExpr:
@@ -257,6 +280,21 @@ func (t *tr) expr(e ast.Expr) string {
 		}
 		t.fail(e, "unary operator %s", x.Op)
 	case *ast.BinaryExpr:
+		if x.Op == token.EQL || x.Op == token.NEQ {
+			for _, pair := range [][2]ast.Expr{{x.X, x.Y}, {x.Y, x.X}} {
+				if id, ok := pair[1].(*ast.Ident); ok {
+					if _, isNil := t.info.Uses[id].(*types.Nil); isNil {
+						if name, ok := t.absPath(pair[0]); ok {
+							r := t.observe(name+"_isnil", "bool")
+							if x.Op == token.NEQ {
+								return "(negb " + r + ")"
+							}
+							return r
+						}
+					}
+				}
+			}
+		}
 		a, b := t.expr(x.X), t.expr(x.Y)
 		switch x.Op {
 		case token.LAND:
@@ -312,6 +350,9 @@ func (t *tr) expr(e ast.Expr) string {
 		if t.isMap(x.X) {
 			return "(fst (go_mget " + t.mapExpr(x.X) + " " + t.expr(x.Index) + "))"
 		}
+		if t.isStr(x.X) && t.isInt(x.Index) {
+			return "(go_sbyte " + t.expr(x.X) + " " + t.expr(x.Index) + ")"
+		}
 		t.fail(e, "index into %s", t.info.TypeOf(x.X))
 	case *ast.SliceExpr:
 		if t.isList(x.X) && !x.Slice3 {
@@ -333,19 +374,48 @@ func (t *tr) expr(e ast.Expr) string {
 	return ""
 }
 
-// recvPath: a chain of field selections rooted at a struct receiver, as the receiver name followed by the field names
-func (t *tr) recvPath(e ast.Expr) ([]string, bool) {
+// absPath: an observation of an abstract value - a chain of field selections, calls of methods without arguments
+// and nothing else, rooted at a struct receiver, a struct-pointer or interface parameter, or a type-assertion
+// result.  Returned as the parameter name the observation gets.
+func (t *tr) absPath(e ast.Expr) (string, bool) {
 	switch x := e.(type) {
+	case *ast.ParenExpr:
+		return t.absPath(x.X)
+	case *ast.StarExpr:
+		return t.absPath(x.X)
 	case *ast.Ident:
-		if t.recv != nil && t.info.Uses[x] == t.recv && t.names[t.recv] == "" {
-			return []string{x.Name}, true
+		if p, ok := t.roots[t.info.Uses[x]]; ok {
+			return p, true
 		}
 	case *ast.SelectorExpr:
-		if p, ok := t.recvPath(x.X); ok {
-			return append(p, x.Sel.Name), true
+		if p, ok := t.absPath(x.X); ok {
+			if f, isVar := t.info.Uses[x.Sel].(*types.Var); isVar && f.IsField() {
+				return p + "_" + x.Sel.Name, true
+			}
+		}
+	case *ast.CallExpr:
+		if f, ok := x.Fun.(*ast.SelectorExpr); ok && len(x.Args) == 0 {
+			if p, ok := t.absPath(f.X); ok {
+				if _, isFn := t.info.Uses[f.Sel].(*types.Func); isFn {
+					if sel, ok := t.info.Selections[f]; !ok || t.known[sel.Obj()] == "" {
+						return p + "_" + f.Sel.Name, true
+					}
+				}
+			}
 		}
 	}
-	return nil, false
+	return "", false
+}
+
+// observe registers an observation parameter
+func (t *tr) observe(name, ty string) string {
+	if old, seen := t.fieldTy[name]; !seen {
+		t.fieldOrder = append(t.fieldOrder, name)
+	} else if old != ty {
+		panic(untr{"observation " + name + " used at two types"})
+	}
+	t.fieldTy[name] = ty
+	return name
 }
 
 func exprText(e ast.Expr) string {
@@ -356,6 +426,27 @@ func exprText(e ast.Expr) string {
 		return exprText(x.X) + "." + x.Sel.Name
 	}
 	return fmt.Sprintf("%T", e)
+}
+
+// isTimeNow: time.Now() or time.Now().UTC()
+func isTimeNow(t *tr, e ast.Expr) bool {
+	c, ok := e.(*ast.CallExpr)
+	if !ok || len(c.Args) != 0 {
+		return false
+	}
+	f, ok := c.Fun.(*ast.SelectorExpr)
+	if !ok {
+		return false
+	}
+	if f.Sel.Name == "UTC" {
+		return isTimeNow(t, f.X)
+	}
+	id, ok := f.X.(*ast.Ident)
+	if !ok || f.Sel.Name != "Now" {
+		return false
+	}
+	pn, ok := t.info.Uses[id].(*types.PkgName)
+	return ok && pn.Imported().Path() == "time"
 }
 
 // mapExpr: a map of strings to integers (an association list in the translation)
@@ -440,6 +531,11 @@ func (t *tr) call(x *ast.CallExpr) string {
 					return "(to_upper " + t.expr(a[0]) + ")"
 				case "strings.TrimSpace":
 					return "(trim_space " + t.expr(a[0]) + ")"
+				case "time.Unix":
+					if tv := t.info.Types[a[1]]; tv.Value != nil && tv.Value.ExactString() == "0" {
+						return t.expr(a[0]) // a time is its Unix seconds
+					}
+					t.fail(x, "time.Unix with nanoseconds")
 				case "fmt.Errorf", "errors.New":
 					// an error value: only that it is not nil, and its format text, are kept
 					tv := t.info.Types[a[0]]
@@ -451,8 +547,14 @@ func (t *tr) call(x *ast.CallExpr) string {
 				t.fail(x, "call of %s", full)
 			}
 		}
+		if f.Sel.Name == "Unix" && len(x.Args) == 0 && isTimeNow(t, f.X) {
+			return t.observe("go_now", "Z") // the clock: one more thing the function observes
+		}
 		if f.Sel.Name == "Unix" && len(x.Args) == 0 && t.isTime(f.X) {
 			return t.expr(f.X)
+		}
+		if name, ok := t.absPath(x); ok {
+			return t.observe(name, t.coqType(x, t.info.TypeOf(x)))
 		}
 		// method of a translated receiver type
 		if sel, ok := t.info.Selections[f]; ok {
@@ -460,7 +562,24 @@ func (t *tr) call(x *ast.CallExpr) string {
 				t.fail(x, "call of %s, which updates its receiver, inside an expression", exprText(f))
 			}
 			if n, ok := t.known[sel.Obj()]; ok {
+				if prefix, isAbs := t.absPath(f.X); isAbs && t.absParams[sel.Obj()] != nil {
+					// a translated method of an abstract value: its observations become ours, under our name for the value
+					var as []string
+					for _, ap := range t.absParams[sel.Obj()] {
+						as = append(as, t.observe(prefix+ap.rel, ap.ty))
+					}
+					return "(" + n + " " + strings.Join(append(as, args()...), " ") + ")"
+				}
 				return "(" + n + " " + strings.Join(append([]string{t.expr(f.X)}, args()...), " ") + ")"
+			}
+			// an untranslated method of an abstract value, with arguments: an unknown function of the arguments
+			if prefix, isAbs := t.absPath(f.X); isAbs {
+				var tys []string
+				for _, a := range x.Args {
+					tys = append(tys, t.coqType(a, t.info.TypeOf(a)))
+				}
+				ty := "(" + strings.Join(append(tys, t.coqType(x, t.info.TypeOf(x))), " -> ") + ")"
+				return "(" + t.observe(prefix+"_"+f.Sel.Name, ty) + " " + strings.Join(args(), " ") + ")"
 			}
 		}
 		t.fail(x, "call of %s", exprText(f))
@@ -476,6 +595,19 @@ type sctx struct {
 	ret       func(string) string // deliver a Go result (the updated receiver is added by t.wrap)
 	emit      func(string) string // deliver a complete return value
 	brk, cont string
+}
+
+// hasJump: does the statement contain a return, break, continue or a loop (whose translation has a return arm)?
+func hasJump(n ast.Node) bool {
+	found := false
+	ast.Inspect(n, func(m ast.Node) bool {
+		switch m.(type) {
+		case *ast.ReturnStmt, *ast.BranchStmt, *ast.RangeStmt, *ast.ForStmt, *ast.FuncLit, *ast.SwitchStmt:
+			found = true
+		}
+		return !found
+	})
+	return found
 }
 
 func canFall(stmts []ast.Stmt) bool {
@@ -540,6 +672,14 @@ func (t *tr) assigned(n ast.Node) []*types.Var {
 				if f, ok := c.Fun.(*ast.SelectorExpr); ok {
 					if sel, ok := t.info.Selections[f]; ok && t.mutates[sel.Obj()] {
 						add(f.X)
+					}
+					if id, ok := f.X.(*ast.Ident); ok && t.vr != nil && t.info.Uses[id] == t.vr {
+						add(f.X) // vr.AddError(...)
+					}
+				}
+				for _, a := range c.Args {
+					if id, ok := a.(*ast.Ident); ok && t.vr != nil && t.info.Uses[id] == t.vr {
+						add(a) // f(..., vr)
 					}
 				}
 			}
@@ -616,6 +756,40 @@ func (t *tr) lhsName(e ast.Expr, define bool) string {
 }
 
 func (t *tr) block(stmts []ast.Stmt, c sctx, ind string) string {
+	return peephole(t.block0(stmts, c, ind))
+}
+
+var letVarRE = regexp.MustCompile(`(?s)^let ([A-Za-z_0-9']+) := (.*) in\s+([A-Za-z_0-9']+)$`)
+
+// peephole: "let x := E in x" is E (when E is one self-contained expression)
+func peephole(s string) string {
+	m := letVarRE.FindStringSubmatch(s)
+	if m == nil || m[1] != m[3] {
+		return s
+	}
+	depth := 0
+	v := m[2]
+	for i := 0; i < len(v); i++ {
+		switch v[i] {
+		case '(':
+			depth++
+		case ')':
+			depth--
+		}
+		if depth < 0 {
+			return s
+		}
+		if depth == 0 && (strings.HasPrefix(v[i:], "let ") || strings.HasPrefix(v[i:], " in ") || strings.HasPrefix(v[i:], " in\n") || strings.HasPrefix(v[i:], "match ") || strings.HasPrefix(v[i:], "if ")) {
+			return s
+		}
+	}
+	if depth != 0 {
+		return s
+	}
+	return v
+}
+
+func (t *tr) block0(stmts []ast.Stmt, c sctx, ind string) string {
 	if len(stmts) == 0 {
 		return c.fall
 	}
@@ -690,6 +864,22 @@ func (t *tr) block(stmts []ast.Stmt, c sctx, ind string) string {
 		return out + t.block(rest, c, ind)
 	case *ast.AssignStmt:
 		if len(x.Lhs) == 2 && len(x.Rhs) == 1 {
+			// v, ok := c.(*T): whether c holds a *T is an observation of c; v is c seen as a *T
+			if ta, isTA := x.Rhs[0].(*ast.TypeAssertExpr); isTA && ta.Type != nil {
+				if prefix, ok := t.absPath(ta.X); ok {
+					tn := strings.TrimPrefix(types.TypeString(t.info.TypeOf(ta.Type), func(*types.Package) string { return "" }), "*")
+					tn = strings.ReplaceAll(tn, ".", "_")
+					if id, isID := x.Lhs[0].(*ast.Ident); isID && id.Name != "_" {
+						o := t.info.Defs[id]
+						if o == nil {
+							o = t.info.Uses[id]
+						}
+						t.roots[o] = prefix + "_as_" + tn
+					}
+					okName := t.lhsName(x.Lhs[1], x.Tok == token.DEFINE)
+					return "let " + okName + " := " + t.observe(prefix+"_is_"+tn, "bool") + " in" + nl + t.block(rest, c, ind)
+				}
+			}
 			// v, ok := m[k]
 			if ie, ok := x.Rhs[0].(*ast.IndexExpr); ok && t.isMap(ie.X) && (x.Tok == token.DEFINE || x.Tok == token.ASSIGN) {
 				val := "(go_mget " + t.mapExpr(ie.X) + " " + t.expr(ie.Index) + ")"
@@ -752,6 +942,24 @@ func (t *tr) block(stmts []ast.Stmt, c sctx, ind string) string {
 		if x.Else != nil {
 			els = []ast.Stmt{x.Else}
 		}
+		// branches that only assign (no return / break / continue / loop inside): the statement is a conditional
+		// update of the variables they assign
+		if !hasJump(x.Body) && (x.Else == nil || !hasJump(x.Else)) {
+			vs := t.assigned(x)
+			if len(vs) == 0 {
+				return t.block(rest, c, ind)
+			}
+			pat, _ := t.tupleOf(x, vs)
+			noJump := func(string) string { t.fail(x, "internal: jump in a branch taken as assignment-only"); return "" }
+			c2 := sctx{fall: pat, ret: noJump, emit: noJump}
+			in3 := ind + "    "
+			thenT, elseT := t.block(x.Body.List, c2, in3), t.block(els, c2, in3)
+			lhs := pat
+			if len(vs) > 1 {
+				lhs = "'" + pat
+			}
+			return "let " + lhs + " :=" + nl + "  (if " + cond + nl + "   then " + thenT + nl + "   else " + elseT + ") in" + nl + t.block(rest, c, ind)
+		}
 		falls := 0
 		if canFall(x.Body.List) {
 			falls++
@@ -803,6 +1011,42 @@ func (t *tr) block(stmts []ast.Stmt, c sctx, ind string) string {
 						}
 					}
 					return "let " + m + " := (go_mdel " + m + " " + t.expr(call.Args[1]) + ") in" + nl + t.block(rest, c, ind)
+				}
+			}
+			if f, ok := call.Fun.(*ast.SelectorExpr); ok && t.vr != nil {
+				vrn := t.names[t.vr]
+				if id, ok := f.X.(*ast.Ident); ok && t.info.Uses[id] == t.vr {
+					kind := map[string]string{"AddError": "GoError", "AddWarning": "GoWarning", "AddTimeCheck": "GoTimeCheck"}[f.Sel.Name]
+					if kind == "" {
+						t.fail(x, "call of %s on the validation results", f.Sel.Name)
+					}
+					return "let " + vrn + " := (" + vrn + " ++ [" + kind + "])%list in" + nl + t.block(rest, c, ind)
+				}
+				if sel, ok := t.info.Selections[f]; ok && t.returnsVr[sel.Obj()] {
+					// a translated method that reports into the same results: it returns them extended
+					return "let " + vrn + " := " + t.call(call) + " in" + nl + t.block(rest, c, ind)
+				}
+				// an untranslated method of an abstract value that is handed the results: what it reports is an
+				// observation of that value (a function of the other arguments), appended
+				if prefix, isAbs := t.absPath(f.X); isAbs {
+					var tys, as []string
+					seenVr := false
+					for _, a := range call.Args {
+						if id, ok := a.(*ast.Ident); ok && t.info.Uses[id] == t.vr {
+							seenVr = true
+							continue
+						}
+						tys = append(tys, t.coqType(a, t.info.TypeOf(a)))
+						as = append(as, t.expr(a))
+					}
+					if seenVr {
+						ty := "(" + strings.Join(append(tys, "(list go_issue)"), " -> ") + ")"
+						obs := t.observe(prefix+"_"+f.Sel.Name, ty)
+						if len(as) > 0 {
+							obs = "(" + obs + " " + strings.Join(as, " ") + ")"
+						}
+						return "let " + vrn + " := (" + vrn + " ++ " + obs + ")%list in" + nl + t.block(rest, c, ind)
+					}
 				}
 			}
 			if f, ok := call.Fun.(*ast.SelectorExpr); ok {
@@ -986,9 +1230,9 @@ func (t *tr) mapRange(x *ast.RangeStmt, rest []ast.Stmt, c sctx, ind string) str
 }
 
 // translateFunc returns the Coq definition text for one function declaration
-func translateFunc(pkg *packages.Package, fd *ast.FuncDecl, coqName string, known map[types.Object]string, mutates map[types.Object]bool) (text string, mutated bool) {
+func translateFunc(pkg *packages.Package, fd *ast.FuncDecl, coqName string, known map[types.Object]string, mutates map[types.Object]bool, absParams map[types.Object][]absParam, returnsVr map[types.Object]bool) (text string, mutated bool, abs []absParam, vr bool) {
 	t := &tr{info: pkg.TypesInfo, fset: pkg.Fset, names: map[types.Object]string{}, used: map[string]bool{},
-		fieldTy: map[string]string{}, known: known, mutates: mutates}
+		fieldTy: map[string]string{}, known: known, mutates: mutates, roots: map[types.Object]string{}, absParams: absParams, returnsVr: returnsVr}
 	defer func() {
 		if r := recover(); r != nil {
 			u, ok := r.(untr)
@@ -1009,14 +1253,29 @@ func translateFunc(pkg *packages.Package, fd *ast.FuncDecl, coqName string, know
 			// a string, a map, or a slice (possibly behind a pointer): the receiver is a value parameter
 			recvName = t.bind(rv)
 			params = append(params, "("+recvName+" : "+t.coqType(fd, derefType(rv.Type()))+")")
+		} else {
+			t.roots[rv] = id.Name // a struct: known through the observations the body makes of it
 		}
 	}
-	for i, f := range fd.Type.Params.List {
+	for _, f := range fd.Type.Params.List {
 		for _, id := range f.Names {
 			o := t.info.Defs[id]
-			ty := t.coqType(f, o.Type()) // a variadic parameter already has its slice type
-			_ = i
-			params = append(params, "("+t.bind(o)+" : "+ty+")")
+			_, isStruct := derefType(o.Type()).Underlying().(*types.Struct)
+			_, isIface := o.Type().Underlying().(*types.Interface)
+			if named, ok := o.Type().(*types.Named); ok && named.Obj().Pkg() != nil && named.Obj().Pkg().Path() == "time" {
+				isStruct = false // a time.Time is its Unix seconds
+			}
+			if isVR(o.Type()) {
+				isStruct = false
+			}
+			if (isStruct && !isPlainStruct(o.Type())) || isIface {
+				t.roots[o] = id.Name
+				continue
+			}
+			if isVR(o.Type()) {
+				t.vr = o
+			}
+			params = append(params, "("+t.bind(o)+" : "+t.coqType(f, o.Type())+")") // (a variadic parameter already has its slice type)
 		}
 	}
 	t.resTy = "unit"
@@ -1048,14 +1307,58 @@ func translateFunc(pkg *packages.Package, fd *ast.FuncDecl, coqName string, know
 			t.wrap = func(v string) string { return "(" + recvName + ", " + v + ")" }
 		}
 	}
+	if t.vr != nil {
+		if t.mut || t.resTy != "unit" {
+			t.fail(fd, "a function that reports into validation results and also returns a value or updates its receiver")
+		}
+		vrn := t.names[t.vr]
+		t.retTy = "(list go_issue)"
+		t.wrap = func(v string) string { return vrn }
+		fall = vrn
+	}
 	body := t.block(fd.Body.List, sctx{fall: fall, ret: func(v string) string { return t.wrap(v) }, emit: func(v string) string { return v }}, "  ")
-	// receiver fields read by the body become parameters, in order of first use
+	// the observations the body makes of abstract values become parameters, in alphabetical order
+	sort.Strings(t.fieldOrder)
 	var fp []string
 	for _, n := range t.fieldOrder {
 		fp = append(fp, "("+n+" : "+t.fieldTy[n]+")")
+		if t.recv != nil && t.roots[t.recv] != "" && strings.HasPrefix(n, t.roots[t.recv]+"_") {
+			t.myAbs = append(t.myAbs, absParam{strings.TrimPrefix(n, t.roots[t.recv]), t.fieldTy[n]})
+		} else {
+			t.foreignObs = true
+		}
 	}
 	params = append(fp, params...)
-	return fmt.Sprintf("Definition %s %s : %s :=\n  %s.\n", coqName, strings.Join(params, " "), t.retTy, body), t.mut
+	if t.foreignObs {
+		t.myAbs = nil // callable from other translated functions only when all its observations are of its own receiver
+	}
+	return fmt.Sprintf("Definition %s %s : %s :=\n  %s.\n", coqName, strings.Join(params, " "), t.retTy, body), t.mut, t.myAbs, t.vr != nil
+}
+
+// isVR: *ValidationResults (of either library)
+func isVR(ty types.Type) bool {
+	if p, ok := ty.(*types.Pointer); ok {
+		ty = p.Elem()
+	}
+	n, ok := ty.(*types.Named)
+	return ok && n.Obj().Name() == "ValidationResults"
+}
+
+// isPlainStruct: a struct of plain fields, translated as a tuple (not an abstract value)
+func isPlainStruct(ty types.Type) bool {
+	if _, isPtr := ty.(*types.Pointer); isPtr {
+		return false
+	}
+	st, ok := ty.Underlying().(*types.Struct)
+	if !ok || st.NumFields() < 2 || st.NumFields() > 3 {
+		return false
+	}
+	for i := 0; i < st.NumFields(); i++ {
+		if _, basic := st.Field(i).Type().Underlying().(*types.Basic); !basic {
+			return false
+		}
+	}
+	return true
 }
 
 func derefType(t types.Type) types.Type {
@@ -1112,6 +1415,8 @@ func srcgen(pkgs []*packages.Package, outDir string) error {
 			b.WriteString("Module " + mod + ".\n")
 			known := map[types.Object]string{}
 			mutates := map[types.Object]bool{}
+			absParams := map[types.Object][]absParam{}
+			returnsVr := map[types.Object]bool{}
 			for _, tg := range srcTargets {
 				if tg.Group != group || (tg.Only != "" && tg.Only != mod) {
 					continue
@@ -1126,11 +1431,15 @@ func srcgen(pkgs []*packages.Package, outDir string) error {
 					continue
 				}
 				b.WriteString(fmt.Sprintf("(* %s *)\n", filepath.Base(pkg.Fset.Position(fd.Pos()).Filename)))
-				text, mut := translateFunc(pkg, fd, name, known, mutates)
+				text, mut, abs, rvr := translateFunc(pkg, fd, name, known, mutates, absParams, returnsVr)
 				b.WriteString(text)
 				if !strings.Contains(text, ": untranslatable :=") {
 					known[pkg.TypesInfo.Defs[fd.Name]] = name
 					mutates[pkg.TypesInfo.Defs[fd.Name]] = mut
+					if abs != nil {
+						absParams[pkg.TypesInfo.Defs[fd.Name]] = abs
+					}
+					returnsVr[pkg.TypesInfo.Defs[fd.Name]] = rvr
 				}
 			}
 			b.WriteString("End " + mod + ".\n\n")
